@@ -220,7 +220,16 @@ def handoff(R, sh):
         if asg is None:
             continue
         rhs = RU.uncast(j, asg["a"][1])
-        if rhs["k"] == "bin" and rhs["op"] in ("==", "<=", "<"):
+        gz = RU.cmp_norm(j, asg["a"][1], True) if (rhs["k"] == "un" and rhs["op"] == "!") else None
+        if gz is not None and gz[2] is None and RU.uncast(j, gz[0])["k"] == "var":
+            # `done = !count`
+            l = RU.uncast(j, gz[0])
+            iszero = gz[1] == "=="
+            held = RU.held_at(ts, e) or set()
+            R.check(l["n"] == "s_unjoined_thread_count" and iszero and LOCK in held, "HANDOFF", "join-all:done-iff-count-zero", where(j, e),
+                    "done := (unjoined count == 0), read under the lock", "`done` is not computed as count == 0 under the lock: join-all can return while managed threads are still unjoined")
+            good += 1
+        elif rhs["k"] == "bin" and rhs["op"] in ("==", "<=", "<"):
             l, r = RU.uncast(j, rhs["a"][0]), RU.uncast(j, rhs["a"][1])
             k = j.is_const(r)
             iszero = (rhs["op"] in ("==", "<=") and k == 0) or (rhs["op"] == "<" and k == 1)
@@ -341,7 +350,7 @@ def thread_fn(R, f):
     heads = [e for e in f.field_accesses(rec="thread_wrapper", field="atexit", modes=("r",))]
     R.require(len(heads) >= 1, "thread_fn: read of wrapper.atexit not found")
     for h in heads:
-        R.check(f.show(h.node["a"][0]) == copy and ev_dominates(f, fc, h, dom), "THREAD-FN", "atexit-head-read-after-func-from-copy", where(f, h),
+        R.check(f.show(h.node) == copy + ".atexit" and ev_dominates(f, fc, h, dom), "THREAD-FN", "atexit-head-read-after-func-from-copy", where(f, h),
                 "the at-exit chain head is read from the thread-local copy after the user function returned",
                 "the at-exit chain is read from %s / before the user function ran: callbacks registered by the thread are missed" % f.show(h.node["a"][0]))
     # callback nodes
@@ -374,7 +383,7 @@ def thread_fn(R, f):
                         for n_ in f.walk(el):
                             if n_["k"] == "bin" and n_["op"] == "=" and f.d(n_["a"][0]) is hw.node:
                                 asg = n_
-                if asg is not None and f.show(f.d(asg["a"][1])) == "%s->next" % node and ev_dominates(f, hw, rel[0], dom) and f.show(hw.node["a"][0]) == copy:
+                if asg is not None and f.show(f.d(asg["a"][1])) == "%s->next" % node and ev_dominates(f, hw, rel[0], dom) and f.show(hw.node) == copy + ".atexit":
                     adv_head = True
             R.check(adv_var or adv_head, "THREAD-FN", "atexit-loop-advances", where(f, rel[0]), "the loop advances to the node's saved successor (loop variable, or the chain head before the release)")
         if cbs:
@@ -447,7 +456,7 @@ def launch(R, f):
         return
     dom = dominators(f)
     gs = [f.show(c) for c, p, b in RU.guards(f, inc[0]) if p]
-    R.check(any("is_managed_thread" in g for g in gs), "LAUNCH", "increment-only-managed", where(f, inc[0]), "count incremented for managed threads only")
+    R.check(any("is_managed_thread" in g or "join_strategy" in g for g in gs), "LAUNCH", "increment-only-managed", where(f, inc[0]), "count incremented for managed threads only")
     # the result variable of pthread_create
     res = None
     for b in f.blocks.values():
